@@ -46,6 +46,17 @@ CHECKS = {
              "monotone end-point reasoning rather than by a solver.",
         design_ref="3.4", technique="exact cell extraction of checker predicates from LLVM IR compared with closed-form sets",
         note=TRUST_I, engine="I"),
+    "C06": dict(
+        category="exploration",
+        text="(W) For all 100 ordered pairs of the 10 standard reps x unit ratios straddling floor(max(R2)/2147) and max(R2), reciprocals, "
+             "general rationals, 10^+-30, pi and sqrt(2): is_convertible / is_constructible (quantities and equal-origin points), an "
+             "overload-resolution probe, copy-initialisation, unit-only .as/.in, mixed-unit + < == and std::common_type are each their own "
+             "program and must compile (totality: a hard error is a violation) and answer exactly the documented predicate; documented "
+             "point examples with different origins are asserted.  (I) every permitted conversion into an integral rep is lowered to IR "
+             "and analysed on an exact cell partition of the whole source range: result == k*x on every cell where no step overflows, "
+             "overflow only where k*x really leaves a range, never for |x| <= 2147 that R2 can hold.  Sampled grid in quick, full in thorough.",
+        design_ref="3.6", technique="static_assert / compile-fail witness programs against the documented predicate + cell analysis of LLVM IR for the value clause",
+        note=TRUST_W + "; " + TRUST_I, engine="W+I"),
     "C13": dict(
         category="proof",
         text="(S) AST shape rule on the primary templates au::Quantity / au::QuantityPoint - exactly one non-static data "
